@@ -25,8 +25,8 @@ from ..core import Violation, SimFault, HarnessError, check, close, maxdiff, fin
 
 CLASSES = ["TimeAxis", "FrequencyAxis", "ValueAxis", "DFunctionReal", "DFunctionComplex", "Operator", "SelfAdjoint",
            "Hamiltonian", "RDM", "Molecule", "Aggregate", "CorrelationFunction", "SpectralDensity", "AbsSpectrum",
-           "AbsSpectrumContainer", "TwoDResponse", "TwoDResponseContainer", "RDMEvolution", "LindbladTensor"]
-BASIS_CLASSES = ("Operator", "SelfAdjoint", "Hamiltonian", "RDM", "RDMEvolution", "LindbladTensor")
+           "AbsSpectrumContainer", "TwoDResponse", "TwoDResponseContainer", "RDMEvolution", "LindbladTensor", "LindbladOps"]
+BASIS_CLASSES = ("Operator", "SelfAdjoint", "Hamiltonian", "RDM", "RDMEvolution", "LindbladTensor", "LindbladOps")
 CTX_CLASSES = ("SelfAdjoint", "Hamiltonian", "RDM")
 UNITS = ["1/cm", "eV", "THz", "meV", "int"]
 FORMATS = [".txt", ".dat", ".npy", ".npz", ".mat"]
@@ -60,7 +60,7 @@ class World:
     required_probes = ["save_inside_basis_context_transformed", "load_inside_basis_context", "save_inside_units_context",
                        "load_inside_units_context", "save_and_load_in_different_contexts", "fileobject_parcel", "path_parcel",
                        "scopy", "savedir_loaddir", "export_with_axis", "export_complex", "export_2d", "failed_write_then_good_save",
-                       "nested_basis_and_units", "fault_unwinds", "large_file_rewritten", "two_directories_in_one_session", "format:.txt", "format:.npy", "format:.npz", "format:.mat", "format:.dat"]
+                       "nested_basis_and_units", "fault_unwinds", "large_file_rewritten", "two_directories_in_one_session", "several_objects_in_one_file", "imported_axis_saved", "format:.txt", "format:.npy", "format:.npz", "format:.mat", "format:.dat"]
     required_faults = ["write_ENOSPC", "F1_simfault"]
     components = {
         "real": ["Saveable.save/load/scopy/savedir/loaddir", "Parcel / load_parcel (dill)", "DataSaveable.save_data/load_data, "
@@ -88,7 +88,7 @@ class World:
         if rng.random() < 0.6:
             classes = rng.sample(classes, rng.randint(2, 7))
         kinds = ["enter_u", "enter_b", "enter_b", "exit", "exit", "touch", "touch", "save", "save", "save", "load", "load", "load",
-                 "scopy", "savedir", "export", "export", "fault", "badsave"]
+                 "scopy", "savedir", "export", "export", "fault", "badsave", "multisave"]
         if rng.random() < 0.3:
             kinds = [k for k in kinds if k not in ("fault", "badsave")]
         ops = []
@@ -114,6 +114,8 @@ class World:
                 ops.append({"op": "scopy", "k": rng.randrange(32)})
             elif k == "savedir":
                 ops.append({"op": "savedir", "k": rng.randrange(32), "k2": rng.randrange(32)})
+            elif k == "multisave":
+                ops.append({"op": "multisave", "ks": [rng.randrange(32) for _ in range(rng.randint(2, 3))]})
             elif k == "export":
                 ops.append({"op": "export", "src": rng.choice(["dfun", "dfun", "abs", "oper", "twod"]), "fmt": rng.randrange(len(FORMATS)),
                             "cplx": rng.random() < 0.5, "twod": rng.random() < 0.4, "axis": rng.random() < 0.5,
@@ -282,12 +284,12 @@ class Runner:
             ev = qr.qm.ReducedDensityMatrixEvolution(ta, rhoi=rho)
             ev.data = g.uniform(-1, 1, size=(4, N, N)) + 1j * g.uniform(-1, 1, size=(4, N, N))
             return ev
-        if cls == "LindbladTensor":
+        if cls in ("LindbladTensor", "LindbladOps"):
             from quantarhei.qm import LindbladForm, SystemBathInteraction
             H = qr.Hamiltonian(data=numpy.diag(numpy.arange(N, dtype=float)))
             sbi = SystemBathInteraction(sys_operators=[qr.qm.ProjectionOperator(0, 1, dim=N), qr.qm.ProjectionOperator(1, 2, dim=N)],
                                         rates=[float(g.uniform(0.01, 0.1)), float(g.uniform(0.01, 0.1))])
-            return LindbladForm(H, sbi, as_operators=False)
+            return LindbladForm(H, sbi, as_operators=(cls == "LindbladOps"))
         raise HarnessError("unknown class " + cls)
 
     def obs(self, cls, o):
@@ -302,6 +304,8 @@ class Runner:
             return {"axis": A(o.axis.data), "data": A(o.data)}
         if cls in ("Operator", "SelfAdjoint", "RDM", "Hamiltonian", "RDMEvolution", "LindbladTensor"):
             return {"data": A(o.data)}
+        if cls == "LindbladOps":
+            return {"Km": A(o.Km), "Lm": A(o.Lm), "Ld": A(o.Ld)}
         if cls == "Molecule":
             return {"e1": A(o.get_energy(1)), "dip": A(o.get_dipole(0, 1)), "H": A(o.get_Hamiltonian().data)}
         if cls == "Aggregate":
@@ -633,6 +637,28 @@ class Runner:
         self.ctx.ev(i, "savedir", k1, k2)
         self.ctx.cov("savedir", a.cls, b.cls)
 
+    def op_multisave(self, i, op):
+        """Several objects written one after another into one open file are read back in the same order."""
+        ks = [self.pick_item(k) for k in op["ks"]]
+        if any(k is None for k in ks):
+            return
+        f = SimFile()
+        try:
+            for k in ks:
+                self.items[k].real.save(f)
+            f.seek(0)
+            out = [self.qr.load_parcel(f) for _ in ks]
+        except Exception as e:
+            raise Violation("save-raises", "op %d: %d objects into one file: %s: %s" % (i, len(ks), type(e).__name__, e))
+        for k, obj in zip(ks, out):
+            it = self.items[k]
+            check(type(obj) is type(it.real), "sequential-load-order",
+                  lambda: "op %d: object saved as %s came back as %s" % (i, type(it.real).__name__, type(obj).__name__))
+            self._register_loaded(i, {"src": k, "cls": it.cls, "ctx": self.context_signature()}, obj, "sequential load from one file")
+        self.ctx.probe("several_objects_in_one_file")
+        self.ctx.ev(i, "multisave", ks)
+        self.ctx.cov("multisave", tuple(self.items[k].cls for k in ks))
+
     def op_export(self, i, op):
         qr = self.qr
         fmt = FORMATS[op["fmt"] % len(FORMATS)]
@@ -724,6 +750,15 @@ class Runner:
             check(close(ax, numpy.array(axis_a.data), rtol=1e-14, scale=max(1.0, float(numpy.max(numpy.abs(axis_a.data))))),
                   "imported-axis-equals-exported", lambda: "%s: axis %s" % (what, maxdiff(ax, numpy.array(axis_a.data))))
             self.ctx.probe("export_with_axis")
+        if with_axis and src == "dfun" and not op.get("big"):
+            try:
+                b2 = b.scopy()
+            except Exception as e:
+                raise Violation("scopy-raises", "%s: scopy of the imported function: %s: %s" % (what, type(e).__name__, e))
+            check(close(numpy.real(numpy.array(b2.axis.data)).reshape(-1), numpy.real(numpy.array(b.axis.data)).reshape(-1), rtol=1e-14, scale=1.0)
+                  and close(numpy.array(b2.data).astype(complex), numpy.array(b.data).astype(complex), rtol=1e-14, scale=1.0),
+                  "loaded-equals-saved", lambda: "%s: a saved copy of the imported function has other axis values or data" % what)
+            self.ctx.probe("imported_axis_saved")
         if op.get("big") and src == "dfun":
             # the file is written again with other content: what was imported before must not change
             a.data = numpy.array(a.data) * 2.0 + 1.0
